@@ -380,6 +380,21 @@ def candidates(name, setting, rng, k, unloggable=False):
             continue
         if ok and canon(v) != canon(setting.default) and canon(v) not in [canon(schema_of(setting, x)[1]) for x in first]:
             first.append(f)
+    # values within round-off distance of the default are NOT the default: relative 1e-6 ... 1e-12 and one ulp either side
+    # of every float (or float-accepting numeric) default; they must be written by the short/medium styles and read back bitwise
+    d = setting.default
+    if isinstance(d, (int, float)) and not isinstance(d, bool):
+        import math
+        base = float(d)
+        near = [math.nextafter(base, math.inf), math.nextafter(base, -math.inf)]
+        if base != 0.0:
+            near += [base * (1.0 + e) for e in (1e-6, 1e-9, 1e-12, -1e-9)]
+        else:
+            near += [1e-12, 1e-300, -1e-12]
+        for v in near:
+            ok, sv = schema_of(setting, v)
+            if ok and isinstance(sv, float) and sv == v and canon(sv) != canon(d):
+                first.append(v)
     k = max(k, len(first) + 2)
     good = [g for g in good if not any(canon(g) == canon(f) and type(g) is type(f) for f in first)]
     ng = min(len(good), max(k - len(first) - min(len(bad), k // 3), 1))
@@ -735,7 +750,12 @@ def run_registry(ctx):
             cands = candidates(n, ref[n], rng, K)
             ctx.count("candidate values", len(cands))
             for i, raw in enumerate(cands):
-                falsy = raw is None or (isinstance(raw, (int, float, str, list, dict)) and not raw)
+                dflt = ref[n].default
+                near = isinstance(raw, float) and isinstance(dflt, (int, float)) and not isinstance(dflt, bool) and raw != dflt \
+                    and abs(raw - dflt) <= 1e-5 * max(abs(dflt), 1e-6)
+                if near:
+                    ctx.count("values within round-off distance of the default")
+                falsy = near or raw is None or (isinstance(raw, (int, float, str, list, dict)) and not raw)
                 styles = ("short", "medium", "full") if (i < nfull or falsy) else ("short", "medium")
                 user = rng.sample(names, rng.randint(0, 6))
                 if n == "userPlugins":
